@@ -122,6 +122,8 @@ def structural_min(spec):
 
 
 def natural_width(spec):
+    """width of the table when nothing constrains it (not expanding, no explicit width / min_width)"""
+    spec = dict(spec, opts=dict(spec["opts"], expand=False, width=None, min_width=None))
     t = lib_table.build_table(spec)
     console = lib_table.make_console(200)
     try:
@@ -239,10 +241,28 @@ def table_jobs(ctx):
             smin = structural_min(s)
             nat = natural_width(s)
             top = min(max(nat + 3, smin + 4), 36)
-            ws = range(smin, top + 1) if not quick else sorted(set(list(range(smin, min(smin + 4, top + 1))) + [max(smin, nat - 2), max(smin, nat), top]))
+            ws = range(smin, top + 1) if not quick else sorted(set(list(range(smin, min(smin + 4, top + 1))) + [min(top, max(smin, nat - 2)), min(top, max(smin, nat)), top]))
             specs += [dict(s, avail=w) for w in ws]
         for i in range(0, len(specs), 60):
             jobs.append((40, FLAGS, specs[i:i + 60]))
+    # ---- A2: ratio (flexible) columns of an expanding table next to fixed / empty / capped columns, every width
+    ratio_specs = []
+    for cols in (
+        [{"header": ("s", "abc"), "footer": ("s", ""), "ratio": 1}, {"header": ("s", ""), "footer": ("s", "")}],
+        [{"header": ("s", "abc def"), "footer": ("s", ""), "ratio": 2}, {"header": ("s", "x"), "footer": ("s", ""), "ratio": 1}, {"header": ("s", "kk"), "footer": ("s", "")}],
+        [{"header": ("s", "ab"), "footer": ("s", ""), "ratio": 1, "width": 4}, {"header": ("s", "some words here"), "footer": ("s", "")}],
+        [{"header": ("s", ""), "footer": ("s", ""), "ratio": 1}, {"header": ("s", "q"), "footer": ("s", ""), "ratio": 3, "min_width": 3}, {"header": ("s", ""), "footer": ("s", ""), "max_width": 2}],
+    ):
+        for c in cols:
+            c["overflow"] = "fold"
+        rows = [{"cells": [("s", "x" if i == 0 else "") for i in range(len(cols))], "end_section": False}]
+        for ov in ({"expand": True, "padding": (0, 0), "box": None, "show_header": False}, {"expand": True}, {"expand": True, "padding": (0, 0)},
+                   {"width": 24, "padding": (0, 0), "box": "ASCII"}, {"expand": False, "padding": (0, 0)}):
+            s = {"cols": cols, "rows": rows, "opts": dict(ov)}
+            smin = structural_min(s)
+            ratio_specs += [dict(s, avail=w) for w in (range(smin, 34) if not quick else list(range(smin, smin + 5)) + [20, 30])]
+    for i in range(0, len(ratio_specs), 60):
+        jobs.append((40, FLAGS, ratio_specs[i:i + 60]))
     # ---- B: seeded structured random tables: all options, column options, nested cells, ragged columns
     n_bundles = 64 if quick else 1500
     for bi in range(n_bundles):
